@@ -198,6 +198,40 @@ var scenarios = []scenario{
 			}
 			r.Drain(nil)
 		}},
+	{name: "close-while-limit-reached", cfg: schedrv.Config{NPub: 3, Cap: 1, ChainLen: 3},
+		what: "MaxAsyncConcurrency 1: publisher 0's announce-triggered sync is held inside its block hook, publisher 1's goroutine waits for the semaphore, an explicit sync of publisher 2 is held inside handler.handle, then Subscriber.Close() is called: it waits for the explicit sync and publisher 1's sync must not start",
+		run: func(r *schedrv.Run) {
+			for p := 0; p < 3; p++ {
+				pubN(r, p, 2)
+			}
+			ga := announce(r, 0, 2)
+			r.RunUntil(ga, schedrv.YHook)
+			gb := announce(r, 1, 2)
+			r.RunUntilOrTry(gb, schedrv.YAsyncSem)
+			c := explicit(r, 2)
+			r.RunUntil(c, schedrv.YHandleLocked)
+			r.Do(schedrv.Decision{K: "close"})
+			r.RunToEnd(ga)
+			r.Drain(nil)
+		}},
+	{name: "close-while-limit-two-reached", cfg: schedrv.Config{NPub: 4, Cap: 2, ChainLen: 3},
+		what: "the same with MaxAsyncConcurrency 2: two syncs running, a third publisher queued, an explicit sync held, Close() called",
+		run: func(r *schedrv.Run) {
+			for p := 0; p < 4; p++ {
+				pubN(r, p, 1)
+			}
+			g0 := announce(r, 0, 1)
+			g1 := announce(r, 1, 1)
+			r.RunUntil(g0, schedrv.YHandleLocked)
+			r.RunUntil(g1, schedrv.YHook)
+			g2 := announce(r, 2, 1)
+			r.RunUntilOrTry(g2, schedrv.YAsyncSem)
+			c := explicit(r, 3)
+			r.RunUntil(c, schedrv.YStopRead)
+			r.Do(schedrv.Decision{K: "close"})
+			r.RunToEnd(g1)
+			r.Drain(nil)
+		}},
 	{name: "relayed-then-announced", cfg: schedrv.Config{NPub: 1, ChainLen: 4, Filter: true},
 		what: "a peer the allow filter rejects announces the publisher's head first, then the publisher announces the same head",
 		run: func(r *schedrv.Run) {
@@ -307,6 +341,7 @@ type genCfg struct {
 	anns, exps, rms int
 	rejs, flips     int
 	ents            int
+	closeAt         int // step at which Subscriber.Close() is called (0: never)
 	failPct         int
 }
 
@@ -316,6 +351,7 @@ func randomRun(rng *vlib.Rand, cfg schedrv.Config, g genCfg) *schedrv.Run {
 	lastAnn := make([]int, cfg.NPub)
 	denied := make([]bool, cfg.NPub)
 	reann := map[[2]int]int{}
+	closed := false
 	// every publisher starts with one advertisement
 	for p := 0; p < cfg.NPub; p++ {
 		r.Do(schedrv.Decision{K: "pub", P: p})
@@ -333,6 +369,12 @@ func randomRun(rng *vlib.Rand, cfg schedrv.Config, g genCfg) *schedrv.Run {
 				d.Fail = true
 			}
 			opts = append(opts, opt{d, 12})
+		}
+		if g.closeAt > 0 && step >= g.closeAt && !closed {
+			closed = true
+			g.exps, g.ents = 0, 0 // a SyncAdChain / SyncEntries that starts now is refused
+			r.Do(schedrv.Decision{K: "close"})
+			continue
 		}
 		for _, t := range r.Waiting() {
 			opts = append(opts, opt{schedrv.Decision{K: "try", T: t}, 5})
@@ -491,6 +533,9 @@ func report(c *vlib.Ctx, name string, r *schedrv.Run, what string) {
 		c.Count("kind:handler-removed")
 	}
 	for _, d := range r.Decisions {
+		if d.K == "close" {
+			c.Count("kind:with-close")
+		}
 		if d.K == "ent" {
 			c.Count("entries-syncs")
 		}
@@ -621,6 +666,14 @@ func main() {
 		}
 		if rng.Intn(3) == 0 {
 			g.ents = 1 + rng.Intn(2)
+		}
+		if rng.Intn(5) == 0 {
+			// a Close() in the middle, with the limit at 1 or 2 and more publishers than slots
+			cfg.Cap = 1 + rng.Intn(2)
+			if cfg.NPub <= cfg.Cap {
+				cfg.NPub = cfg.Cap + 1 + rng.Intn(2)
+			}
+			g.closeAt = 8 + rng.Intn(40)
 		}
 		switch rng.Intn(4) {
 		case 0: // announce-only
